@@ -1,4 +1,7 @@
 import NfcVerif.Lemmas.Sap
+import NfcVerif.Lemmas.SapSpec
+import NfcVerif.Lemmas.SapSrc
+import NfcVerif.Lemmas.SapEnd
 /-!
 # C17 - LLCP addressing: binding, discovery and delivery reach the right socket
 
@@ -273,5 +276,150 @@ def dgramOps : List Op :=
 set_option maxRecDepth 100000 in
 example : (((run Pair.init dgramOps).b).sock 0).recvq = [.ui 40 32 [1, 2, 3]] ∧
     (((run Pair.init dgramOps).b).sock 1).recvq = [] := by decide +kernel
+
+
+/-! ## simulation: the controllers refine the abstract specification
+
+`SpecSide` = (number of sockets, kinds, per-socket binding, address ⇀ sockets,
+name ⇀ address), `absP` the abstraction of the two controllers, `Spec.step` the
+transition function of the specification, `Spec.valid` what it says about outcomes.
+
+Expressed at the abstract level, with exact outcome: `socket` (new id), `bind`
+none/addr/name (address or errno), `close`; the implicit anonymous bind of
+`listen`/`connect`/`sendto`/raw send (table effect exact; `EAGAIN` when 32..63 are
+exhausted; `EOPNOTSUPP`/`TypeError` for the wrong socket kind); `accept` (the new
+socket gets the next id and the address the listener is bound to, and joins that
+address).  NOT expressible on this abstract state, so `Spec.valid` says nothing
+about them: whether `accept` finds a pending request, the other outcomes of
+`listen/connect/sendto`, and the results of `recvfrom`, `resolve` and of a link
+transfer - they depend on connection state machines, queue contents and on what
+else is waiting on the link (which PDU `collect` picks, whether an answer arrives
+before the wait ends).  For those the specification only says "the tables do not
+change"; what they return is covered by `resolve_exact`,
+`connect_by_name_exact/absent`, `datagram_end_to_end` and `recvfrom_returns`. -/
+
+/-- one operation: `abs (step c op) = Spec.step (abs c) op` (the outcome is the label
+of the transition) and the outcome is one the specification allows -/
+theorem simulation_step (p : Pair) (op : Op) (p' : Pair) (out : Py Out) (h : apply p op = .ok (p', out)) :
+    absP p' = Spec.step (absP p) op out ∧ Spec.valid ((absP p).get op.side) op out :=
+  Sap.simulation_step h
+
+/-- whole histories: the abstraction of the reached state is the specification run
+over the observed trace, and the specification accepts the trace -/
+theorem simulation (ops : List Op) :
+    absP (run Pair.init ops) = Spec.run Spec.init (trace Pair.init ops) ∧
+    Spec.accepts Spec.init (trace Pair.init ops) :=
+  Sap.simulation ops Pair.init
+
+set_option maxRecDepth 100000 in
+example : (trace Pair.init rebindOps).length = 5 := by decide +kernel
+
+/-- the specification keeps the table invariant by itself (for every operation and
+every outcome label) -/
+theorem spec_keeps_invariant (s : SpecSide) (hi : SpecInv s) (op : Op) (out : Py Out)
+    (hw : ∀ id, op.sock? = some id → id < s.n) : SpecInv (Spec.sideStep s op out) :=
+  specInv_sideStep hi op out hw
+
+/-- ... hence the abstraction of every reachable state satisfies it (via `simulation`) -/
+theorem spec_reachable_invariant (ops : List Op) (x : Side) :
+    SpecInv ((absP (run Pair.init ops)).get x) := specInv_reach ops x
+
+/-- re-derived: no address handed out twice, a socket in at most one address set and once,
+bound exactly where it is listed -/
+theorem spec_addr_unique (ops : List Op) (x : Side) (a b id : Nat) (l l' : List Nat)
+    (h1 : ((absP (run Pair.init ops)).get x).owner a = some l)
+    (h2 : ((absP (run Pair.init ops)).get x).owner b = some l') (m1 : id ∈ l) (m2 : id ∈ l') :
+    a = b ∧ l.Nodup ∧ ((absP (run Pair.init ops)).get x).bound id = some a ∧
+      id < ((absP (run Pair.init ops)).get x).n :=
+  (specInv_reach ops x).unique h1 h2 m1 m2
+
+/-- re-derived: registered names designate live addresses, name ⇀ address is injective -/
+theorem spec_names_live (ops : List Op) (x : Side) (nm : Bytes) (a : Nat)
+    (h : ((absP (run Pair.init ops)).get x).names.lookup nm = some a) :
+    ((nm = nameSdp ∧ a = 1) ∨ (2 ≤ a ∧ ∃ l, ((absP (run Pair.init ops)).get x).owner a = some l ∧ l ≠ [] ∧
+        ∀ j ∈ l, ((absP (run Pair.init ops)).get x).bound j = some a)) ∧
+    (((absP (run Pair.init ops)).get x).names.map Prod.snd).Nodup :=
+  ⟨(specInv_reach ops x).name_live h, (specInv_reach ops x).names_injective.2⟩
+
+/-- the allocation function of the specification obeys the declarative rule of the
+statement (address classes, freeness, errno table) -/
+theorem spec_bind_rule (s : SpecSide) (id : Nat) (arg : BindArg) (hu : s.bound id = none) :
+    (∃ s' a, s.bind id arg = .ok s' ∧ BindOk s.tbl (s.kind id) arg a ∧ s'.bound id = some a ∧
+        s'.tbl = s.tbl.bound id a arg) ∨
+    (∃ n, s.bind id arg = .error n ∧ BindErr s.tbl (s.kind id) arg n) :=
+  Sap.spec_bind_rule s id arg hu
+
+/-- re-derived at the API: what `bind` + `getsockname` return on an unbound socket is an
+address allowed by the rule, or the errno the rule prescribes -/
+theorem api_bind_rule (p p' : Pair) (x : Side) (id : Nat) (arg : BindArg) (out : Py Out)
+    (h : apply p (.bind x id arg) = .ok (p', out)) (hu : ((absP p).get x).bound id = none) :
+    (∃ a, out = .ok (.addr (some a)) ∧
+        BindOk ((absP p).get x).tbl (((absP p).get x).kind id) arg a) ∨
+    (∃ n, out = .error (.llcp n) ∧ BindErr ((absP p).get x).tbl (((absP p).get x).kind id) arg n) := by
+  have hv := (Sap.simulation_step h).2
+  simp only [Spec.valid, Op.side] at hv
+  rcases Sap.spec_bind_rule _ id arg hu with ⟨s', a, h1, h2, h3, _⟩ | ⟨n, h1, h2⟩
+  · rw [h1] at hv; simp only at hv; rw [h3] at hv; exact .inl ⟨a, hv, h2⟩
+  · rw [h1] at hv; exact .inr ⟨n, hv, h2⟩
+
+/-- re-derived: closing the last socket frees the address and its names -/
+theorem spec_close_frees (s : SpecSide) (id a : Nat) (hb : s.bound id = some a) (ho : s.owner a = some [id]) :
+    (s.close id).owner a = none ∧ (∀ nm, (s.close id).names.lookup nm ≠ some a) ∧
+    (∀ b, b ≠ a → (s.close id).owner b = s.owner b) :=
+  let h := spec_close_last s id a hb ho; ⟨h.1, h.2.1, h.2.2.1⟩
+
+theorem api_close_frees (p p' : Pair) (x : Side) (id a : Nat) (out : Py Out)
+    (h : apply p (.close x id) = .ok (p', out))
+    (hb : ((absP p).get x).bound id = some a) (ho : ((absP p).get x).owner a = some [id]) :
+    out = .ok .unit ∧ ((absP p').get x).owner a = none ∧
+    (∀ nm, ((absP p').get x).names.lookup nm ≠ some a) := by
+  obtain ⟨h1, h2⟩ := Sap.simulation_step h
+  have hc := spec_close_last _ id a hb ho
+  refine ⟨h2, ?_, ?_⟩
+  · rw [h1]; simp only [Spec.step, Op.side, Spec.sideStep]
+    cases x <;> simp only [SpecState.set, SpecState.get] at hc ⊢ <;> exact hc.1
+  · rw [h1]; simp only [Spec.step, Op.side, Spec.sideStep]
+    cases x <;> simp only [SpecState.set, SpecState.get] at hc ⊢ <;> exact hc.2.1
+
+/-! ## source address intact from `sendto` to `recvfrom` -/
+
+/-- in every reachable state a UI PDU waiting in the send queue of a logical-data-link
+socket carries the address that socket is bound to (`sendto` puts it there, nothing
+changes it afterwards) -/
+theorem queued_datagram_source (ops : List Op) (x : Side) (j d s : Nat) (m : Bytes)
+    (hk : (((run Pair.init ops).get x).sock j).kind = .ldl)
+    (hm : Pdu.ui d s m ∈ (((run Pair.init ops).get x).sock j).sendq) :
+    (((run Pair.init ops).get x).sock j).addr = some s :=
+  reach_src ops x j hk d s m hm
+
+/-- link transfer of a UI PDU, end to end (see `Lemmas/SapEnd.lean`) -/
+theorem datagram_end_to_end (ops : List Op) (x : Side) (p' : Pair) (d s : Nat) (m : Bytes)
+    (h : xfer (run Pair.init ops) x = .ok (p', true))
+    (hw : p'.wire.head? = some (x, .ui d s m)) :
+    ((∃ j rest, (((run Pair.init ops).get x).sock j).sendq = .ui d s m :: rest ∧
+        ((((run Pair.init ops).get x).sock j).kind = .ldl →
+          (((run Pair.init ops).get x).sock j).addr = some s)) ∨
+      (p'.get x).sock = ((run Pair.init ops).get x).sock) ∧
+    (∀ k, (p'.get (!x)).sock k ≠ ((run Pair.init ops).get (!x)).sock k →
+      (((run Pair.init ops).get (!x)).sock k).addr = some d ∧
+      ((((run Pair.init ops).get (!x)).sock k).kind ≠ .dlc →
+        (p'.get (!x)).sock k = { ((run Pair.init ops).get (!x)).sock k with
+          recvq := (((run Pair.init ops).get (!x)).sock k).recvq ++ [.ui d s m] })) :=
+  Sap.datagram_end_to_end ops x p' d s m h hw
+
+/-- `recvfrom` returns payload and source of the PDU at the head of the queue -/
+theorem recvfrom_returns (p : Pair) (x : Side) (id a d s : Nat) (m : Bytes) (rest : List Pdu) (e : SapEntry)
+    (hk : ((p.get x).sock id).kind = .ldl) (ha : ((p.get x).sock id).addr = some a) (ha0 : a ≠ 0)
+    (hs : (p.get x).sap a = some e) (hst : ((p.get x).sock id).st ≠ .shutdown)
+    (hq : ((p.get x).sock id).recvq = .ui d s m :: rest) :
+    ∃ p', apiRecvfrom p x id = .ok (p', .ok (.data (some m) (some s))) :=
+  Sap.recvfrom_returns p x id a d s m rest e hk ha ha0 hs hst hq
+
+/-- concrete run: sendto at A, one link transfer, recvfrom at B returns payload and A's address -/
+def dgramOps2 : List Op := dgramOps ++ [.recvfrom true 0]
+
+set_option maxRecDepth 100000 in
+example : (trace Pair.init dgramOps2).getLast?.map (fun q => errOf q.2) = some none ∧
+    (((run Pair.init dgramOps2).b).sock 0).recvq = [] := by decide +kernel
 
 end NfcVerif.C17
